@@ -101,7 +101,7 @@ def run(repo, rep):
     from ..symcheck import strip_turn_folds
     for i in range(3):
         got_i = val.items[i]
-        if i == 1:
+        if i == 1 and LON_MODULO_TURN[0]:
             # the property compares the longitude modulo 360 degrees: a wrap of the result (or of lon1, which enters linearly) into a
             # principal range changes the representative, not the longitude
             got_i = strip_turn_folds(got_i)
@@ -151,6 +151,9 @@ def run(repo, rep):
     for p in f.params[:3]:
         common.angle_param_rule(rep, f, p.name)
     rep.floor('R-UNITS', 3, 'three angle arguments')
+
+
+LON_MODULO_TURN = [True]     # C04 compares the end point's longitude modulo 360; a caller that hands lon2 on to geo2grid (C14) needs the representative
 
 
 def controls(repo):
